@@ -263,15 +263,37 @@ fn sub_random_positions(input: &[u8], st: &mut Stats) -> R {
     check_binary(&bytes, &positions, st, &|| format!("{}mutations {:?}", m.render(), kinds))
 }
 
+/// binaries under `layout::mutate2` (modules stored back to back, a special word - the magic number,
+/// a version word - where an instruction starts, texts split over two instructions, ids around 2^16)
+/// with scripted answers at random positions
+fn sub_structural(input: &[u8], st: &mut Stats) -> R {
+    let mut cs = Cs::new(input);
+    let mode = match cs.below(3) {
+        0 => ModMode::Ordered,
+        1 => ModMode::Interleaved,
+        _ => ModMode::Wild,
+    };
+    let m = gen_module(&mut cs, mode, 24);
+    let (bytes, kinds) = crate::layout::mutate2(&mut cs, &m);
+    for k in &kinds {
+        st.count(&format!("structural_{}", k));
+    }
+    let n = 2 * m.plans.len() + 8;
+    let positions: Vec<usize> = (0..3).map(|_| cs.below(n + 1)).collect();
+    check_binary(&bytes, &positions, st, &|| format!("{}structural edits {:?}", m.render(), kinds))
+}
+
 pub const SUBS: &[Sub] = &[
     Sub { name: "every-position", f: sub_exhaustive_positions },
     Sub { name: "random-positions", f: sub_random_positions },
+    Sub { name: "structural-variations", f: sub_structural },
 ];
 
 pub fn run(ctx: &Ctx) {
     run_regress(ctx, SUBS);
     drive_enum(ctx, &SUBS[0], ctx.n(1500, 600_000));
     drive_random(ctx, &SUBS[1], ctx.n(20_000, 10_000_000), 1600);
+    drive_random(ctx, &SUBS[2], ctx.n(20_000, 10_000_000), 1600);
     if !ctx.quick() && !ctx.failed() {
         crate::fuzzing::drive_fuzz(ctx, "modules", 200000);
     }
